@@ -6,6 +6,8 @@ sys.path.insert(0, "/verif/engine")
 import extract
 from rules import core
 RULES = [("r_storage2", "rule_implicit_drops"), ("r_storage2", "rule_dropper"), ("r_spec", "rule_funnel"), ("r_storage", "rule_version_next"), ("r_misc", "rule_unchecked_inventory"), ("r_spec", "rule_iter_loops"), ("r_spec", "rule_borrow_guards"), ("r_spec", "rule_find_dispatch"), ("r_spec", "rule_mints")]
+if os.environ.get("RULES"):
+    RULES = [tuple(x.split(".")) for x in os.environ["RULES"].split(",")]
 cfg = [c for c in extract.all_configs() if c.name == os.environ.get("CFG", "d-0")][0]
 for patch in sys.argv[1:]:
     T = tempfile.mkdtemp(prefix="qn-", dir="/tmp")
